@@ -42,6 +42,10 @@ func (it *Iterator) M__next__() (res Object, err error) {
 		it.Pos++
 		return res, nil
 	}
+	if it.Seq == nil {
+		// exhausted iterators stay exhausted
+		return nil, StopIteration
+	}
 	index := Int(it.Pos)
 	if I, ok := it.Seq.(I__getitem__); ok {
 		res, err = I.M__getitem__(index)
@@ -50,6 +54,7 @@ func (it *Iterator) M__next__() (res Object, err error) {
 	}
 	if err != nil {
 		if IsException(IndexError, err) {
+			it.Seq = nil
 			return nil, StopIteration
 		}
 		return nil, err
